@@ -344,6 +344,7 @@ pub fn families(kind: Kind, tier: Tier) -> Vec<Box<dyn Family>> {
             v.push(Box::new(many_ranges()));
             v.push(Box::new(overlap_frames()));
             v.push(Box::new(spellings()));
+            v.push(Box::new(same_body_loops()));
             // a character (or sigma*) in front of / behind complements of level-2 programs: level 4
             v.push(Box::new(BinaryWith { small: vec![Arc::new(P::Rng(1, 1)), Arc::new(P::All)], base: Box::new(comp_over_level2()), stride: 13, offset: 0 }));
             v.push(Box::new(EpsProbe { base: Box::new(level3_slice(false)), stride: 7, range: (2, 2) }));
@@ -371,6 +372,7 @@ pub fn families(kind: Kind, tier: Tier) -> Vec<Box<dyn Family>> {
             v.push(Box::new(many_ranges()));
             v.push(Box::new(overlap_frames()));
             v.push(Box::new(spellings()));
+            v.push(Box::new(same_body_loops()));
             v.push(Box::new(BinaryWith { small: vec![Arc::new(P::Rng(1, 1)), Arc::new(P::All)], base: Box::new(comp_over_level2()), stride: 2, offset: 0 }));
             v.push(Box::new(EpsProbe { base: Box::new(level3_slice(false)), stride: 1, range: (2, 2) }));
             v.push(Box::new(EpsProbe { base: Box::new(level3_pairs(true)), stride: 2, range: (1, 1) }));
